@@ -69,13 +69,19 @@ def moments_of(state, backend, hbar=2.0):
         if len(w) == 1:
             mu = np.real(mus[0])[o]
             V = np.real(covs[0])[np.ix_(o, o)]
-            return mu, V, {"weights": 1, "wsum": complex(np.sum(w))}
+            return mu, V, {"weights": 1, "wsum": complex(np.sum(w)), "wabs": float(np.sum(np.abs(w)))}
         mean = np.einsum("i,ij->j", w, mus)
         second = np.einsum("i,ijk->jk", w, covs + np.einsum("ij,ik->ijk", mus, mus))
         V = second - np.outer(mean, mean)
-        return np.real(mean)[o], np.real(V)[np.ix_(o, o)], {"weights": len(w), "wsum": complex(np.sum(w))}
+        return np.real(mean)[o], np.real(V)[np.ix_(o, o)], {"weights": len(w), "wsum": complex(np.sum(w)), "wabs": float(np.sum(np.abs(w)))}
     if backend == "fock":
         rho = fockref.state_dm(state)
         mu, V = fockref.moments(rho, n, hbar)
         return mu, V, {"trace": fockref.trace(rho, n)}
     raise ValueError(backend)
+
+
+def weights_bad(info):
+    """bosonic weights must sum to one; non-Gaussian preparations use huge alternating weights (|w| ~ 1e5 per Fock mode),
+    so the tolerance is 1e-9 + 1e-14 * sum|w| (floating-point cancellation), i.e. 1e-9 for Gaussian states"""
+    return abs(info["wsum"] - 1) > 1e-9 + 1e-14 * info["wabs"]
